@@ -49,6 +49,10 @@ def scenarios(tier):
         S.append(("reset", c, 1, [{"op": "reset", "h": 0, "path": [], "args": [{"only": "this", "l": [9]}]}]))
         S.append(("clear", c, 1, [{"op": "clear", "h": 0, "path": [], "args": []}]))
         S.append(("update_big", c, 1, [{"op": "update", "h": 0, "path": [], "args": ["mapping", big, None]}]))
+    for c in ("JSONDict", "JSONList", "BufferedJSONDict", "MemoryBufferedJSONDict"):
+        st = [{"op": "setitem", "h": 0, "path": [], "args": ["first", {"x": [1, 2, 3]}]}] if c.endswith("Dict") else \
+            [{"op": "append", "h": 0, "path": [], "args": [{"first": [1, 2, 3]}]}]
+        S.append(("first_write_missing_file", c, 1, st))
     for c in ("JSONList", "BufferedJSONList", "MemoryBufferedJSONList"):
         S.append(("list_extend", c, 1, [{"op": "extend", "h": 0, "path": [], "args": [[1, "two", {"three": 3}]]}]))
         S.append(("list_pop", c, 1, [{"op": "pop", "h": 0, "path": [], "args": []}]))
@@ -72,7 +76,8 @@ def plan(tier, seed):
     sc = scenarios(tier)
     for si, (name, cls, nfiles, steps) in enumerate(sc):
         for ci, cfg in enumerate(ATOMIC_CFGS):
-            if tier == "quick" and (si + ci + seed) % 3 != 0 and name not in ("root_setitem", "backend_flush_3"):
+            if tier == "quick" and (si + ci + seed) % 3 != 0 and name not in ("root_setitem", "backend_flush_3",
+                                                                               "first_write_missing_file"):
                 continue  # quick: each scenario in one configuration (rotating with the seed)
             specs.append({"kind": "crash", "scenario": si, "cfg": cfg, "tier": tier, "seed": seed})
     specs.append({"kind": "control", "tier": tier, "seed": seed})
@@ -87,7 +92,7 @@ INIT_L = [1, "two", [3, 4], {"five": 5}]
 class World:
     """Files with old content, objects, the action and the expected new contents."""
 
-    def __init__(self, cls_name, cfg, nfiles, steps):
+    def __init__(self, cls_name, cfg, nfiles, steps, missing=False):
         self.info = catalog.info(cls_name)
         self.cls = self.info.cls()
         self.cfg = cfg
@@ -99,6 +104,8 @@ class World:
                 o["id"] = i
             else:
                 o.append(i)
+        if missing:
+            self.old = [MISSING for _ in range(nfiles)]
         self.res = [catalog.Resource(self.info, self.scratch, f"f{i}") for i in range(nfiles)]
         ms = ModelState(self.info.kind, self.old)
         for h in range(nfiles):
@@ -126,6 +133,9 @@ class World:
             if f.startswith("._"):
                 os.remove(os.path.join(self.scratch, f))
         for r, o in zip(self.res, self.old):
+            if o == MISSING:
+                r.remove()
+                continue
             with open(r.path, "wb") as f:
                 f.write(json.dumps(o).encode())
 
@@ -153,11 +163,13 @@ class World:
         """None if every file is wholly old or wholly new and opens; else a description."""
         for i, r in enumerate(self.res):
             got = r.probe()
+            if got == MISSING and self.old[i] == MISSING:
+                continue  # wholly old: the file did not exist before
             if got == MISSING:
                 return f"file {i} vanished"
             if got == catalog.UNPARSABLE:
                 return f"file {i} is not parsable JSON: {r.raw()[:80]!r}"
-            if not (model.strict_eq(got, self.old[i]) or model.strict_eq(got, self.new[i])):
+            if not ((self.old[i] != MISSING and model.strict_eq(got, self.old[i])) or model.strict_eq(got, self.new[i])):
                 return f"file {i} holds {got!r}: neither the old nor the new content"
             try:
                 fresh = r.new_handle(write_concern=self.cfg["wc"])
@@ -169,7 +181,8 @@ class World:
         return None
 
     def states(self):
-        return tuple("new" if model.strict_eq(r.probe(), n) else "old" for r, n in zip(self.res, self.new))
+        return tuple("new" if r.probe() != MISSING and model.strict_eq(r.probe(), n) else "old"
+                     for r, n in zip(self.res, self.new))
 
     def close(self):
         if self.threading_off:
@@ -264,7 +277,7 @@ def run_shard(spec):
            "killed": 0}
     if spec["kind"] == "crash":
         name, cls, nfiles, steps = scenarios(spec["tier"])[spec["scenario"]]
-        world = World(cls, spec["cfg"], nfiles, steps)
+        world = World(cls, spec["cfg"], nfiles, steps, missing=name == "first_write_missing_file")
         sample = {"scenario": name, "cls": cls, "cfg": spec["cfg"], "files": nfiles, "steps": steps}
         try:
             sweep(world, spec["tier"], out, {"cls": cls, "scenario": name, "stratum": "atomic"}, sample)
